@@ -12,6 +12,7 @@ HARNESSES = {
     "mutread_plain": dict(src=["harness/h_mutread.cpp"], flavour="plain"),
     "fuzz_reader": dict(src=["harness/fuzz_reader.cpp"], flavour="asan", ldflags=["-fsanitize=fuzzer"], libs=[]),
     "fuzz_decoder": dict(src=["harness/fuzz_decoder.cpp"], flavour="asan", ldflags=["-fsanitize=fuzzer"], libs=[]),
+    "fuzz_rewrite": dict(src=["harness/fuzz_rewrite.cpp"], flavour="asan", ldflags=["-fsanitize=fuzzer"], libs=["-lrapidcheck"]),
     "cdns-merge": dict(src=["REPO/src/bin/cdns_merge.cpp"], flavour="asan", libs=[]),
     "cdns-itemcount": dict(src=["REPO/src/bin/cdns_itemcount.cpp"], flavour="asan", libs=[]),
     "cdns-items": dict(src=["REPO/src/bin/cdns_items.cpp"], flavour="asan", libs=[]),
@@ -26,6 +27,7 @@ ENGINE_TEXT = {
     "tools": "rapidcheck inputs for the real CLI tools (sanitizer builds of src/bin/*.cpp) run as subprocesses",
     "mutread": "rapidcheck structure-aware mutation of valid files into CdnsReader / CdnsDecoder, ASan+UBSan, allocation cap",
     "mutread_plain": "uninstrumented build of the mutread harness, replayed under valgrind memcheck (thorough tier)",
+    "fuzz_rewrite": "libFuzzer target: bytes = choices of the C08 rewrite-plan generator (FuzzChooser), metamorphic oracle inside the target",
     "fuzz_reader": "libFuzzer target: bytes -> CdnsReader, accessors, renderers",
     "fuzz_decoder": "libFuzzer target: bytes -> CdnsDecoder operation program",
     "cdns-merge": "tool under test (sanitizer build)", "cdns-itemcount": "tool under test (sanitizer build)", "cdns-items": "tool under test (sanitizer build)",
@@ -183,7 +185,11 @@ PROPS = {
         level_note="only RFC-equivalent rewrites: array order kept, no duplicate keys, no tags around known members",
         technique="property-based testing: metamorphic testing with structure-aware rewriter",
         assumptions=[],
-        jobs=[dict(harness="reread", prop="c08_rewrite", cases=(12000, 400000), size=(30, 80))],
+        extra_harnesses=["fuzz_rewrite", "mutread"],
+        jobs=[
+            dict(harness="reread", prop="c08_rewrite", cases=(12000, 400000), size=(30, 80)),
+            dict(kind="py", func="fuzz", tiers=("thorough",), targets=["fuzz_rewrite"], runs=(0, 0), max_total_time=(0, 600), procs=(0, 6), max_len=4096, seed_corpus=False),
+        ],
     ),
     "C09": dict(
         rule="generated FilePreamble values (versions 0..255, private version present/absent, 1..8 sets, every subset of optional members, full-width integers, arbitrary opcode/rr-type "
